@@ -24,6 +24,8 @@ def _line(e):
         return {"ev": ev, "sess": e["sess"], "peer": e["peer"]}
     if ev in ("known_add", "conn_del", "known_del"):
         return {"ev": ev, "peer": e["peer"]}
+    if ev == "known_del_skipped":
+        return {"ev": "known_keep", "peer": e["peer"]}
     if ev == "reject":
         return {"ev": ev, "sess": e["sess"], "why": e["why"]}
     if ev in REQ:
